@@ -197,7 +197,57 @@ def check_C06(c):
                          "Mod and Pow on floats are compared within 8 ulp of math.Mod/Pow (math32 for float32)"]
 
 
-CHECKS = {"C01": check_C01, "C02": check_C02, "C03": check_C03, "C04": check_C04, "C13": check_C13, "C06": check_C06}
+ALLMODES = ("safe", "unsafe", "reuse", "incr", "reuseA", "reuseB")
+
+
+def check_C07(c):
+    q = c.quick
+    lay = ("C", "T", "Col", "Step") if q else LAYS
+    for kinds, name, dts, pals in ((["Arith"], "modes-arith", "numeric", "ident,signed"),
+                                   (["Cmp"], "modes-cmp", "ordered,bool,complex128", "ident,signed"),
+                                   (["Unary"], "modes-unary", "numeric,string", "ident,signed")):
+        k = elem_consts(q, kinds, laya=lay, layb=("C", "T", "Col") if q else lay, modes=ALLMODES,
+                        layd=("C", "Row", "Col") if q else ("C", "Row", "Col", "T"), mismatch=False,
+                        MaxRank=2 if q else 3, MaxDim=3 if q else 3, HiRank=3)
+        cases = c.tlc("MC_elem", name, k, ELEM_INV)
+        c.replay(name, cases, dtypes=dts, pals=pals, rotate=3 if q else 0,
+                 extra=["-ops", "all", "-entries", "func,method"] + (["-oprotate", "3", "-palrotate", "1"] if q else []))
+    c.rep.rule = ("TLC enumerates, for arithmetic, comparison and unary operations, the option modes {safe, unsafe, reuse, incr, reuse "
+                  "aliasing the first / second operand} x operand layouts x destination layouts {contiguous, contiguous window view, inner "
+                  "slice view (thorough: lazily transposed)}; the specification fixes which tensor is returned and which single tensor "
+                  "changes (TLC invariant OperandsIntact on the model); the replayer executes every structure with every operator and "
+                  "element type and compares EVERY live tensor and every caller backing afterwards, plus the identity of the returned tensor")
+    c.rep.assumptions = ["an aliasing reuse, and a reuse/incr into a view or lazily transposed destination, may be refused",
+                         "a reuse destination of a different shape but equal size is reshaped by the library (documented); not generated"]
+
+
+def check_C11(c):
+    q = c.quick
+    k = elem_consts(q, ["Cmp"], modes=("safe", "unsafe", "reuse"), layd=("C",))
+    cases = c.tlc("MC_elem", "elem-cmp", k, ELEM_INV)
+    c.replay("elem-cmp", cases, dtypes="all", pals="ident,signed,edge,nonfinite", rotate=8 if q else 0,
+             extra=["-ops", "all", "-entries", "func,method"] + (["-palrotate", "2"] if q else []))
+    c.rep.rule = ("MC_elem with the six comparisons: shapes of rank 0-4 x {tensor-tensor, tensor-scalar, scalar-tensor} x independent operand "
+                  "layouts x result kind {bool tensor, same-type 1/0, unsafe in place, reuse (bool and same-type)}; every ordered element type "
+                  "(equality: every comparable type incl. bool, complex, string); palettes with equal pairs, NaN and extremes; each coordinate "
+                  "is compared with the truth value of Go's comparison of the operands' elements in operand order")
+    c.rep.assumptions = ["complex types must refuse the ordering comparisons; bool/string support is accepted either way and compared when served"]
+
+
+def check_C12(c):
+    q = c.quick
+    k = elem_consts(q, ["Unary"], forms=("TS",), layb=("C",), modes=("safe", "unsafe", "reuse", "incr"), layd=("C",), mismatch=False)
+    cases = c.tlc("MC_elem", "elem-unary", k, ELEM_INV)
+    c.replay("elem-unary", cases, dtypes="all", pals="ident,signed,edge,nonfinite,zerodiv", rotate=8 if q else 0,
+             extra=["-ops", "all"] + (["-palrotate", "3"] if q else []))
+    c.rep.rule = ("MC_elem with the unary operations {neg, inv, square, cube, abs, sign, sqrt, cbrt, invsqrt, exp, log, log2, log10, tanh, "
+                  "clamp(lo,hi), Apply(fn)} x operand layouts x option modes; all element types (types outside an operation's domain must "
+                  "be refused or are accepted either way, see Support); palettes with 0, negatives, extremes and non-finite values; exact "
+                  "comparison for integer types and the algebraic functions, 8 ulp of Go's math/math32/cmplx routine otherwise")
+    c.rep.assumptions = ["float32 transcendental functions are compared with github.com/chewxy/math32 (the float32 routines the package documents using)"]
+
+
+CHECKS = {"C01": check_C01, "C02": check_C02, "C03": check_C03, "C04": check_C04, "C13": check_C13, "C06": check_C06, "C07": check_C07, "C11": check_C11, "C12": check_C12}
 
 HOOK_COMMITS = []
 NOT_YET = {}
@@ -222,6 +272,18 @@ LEVELS = {
             "technique": "TLC-enumerated operand structures (MC_elem over Tensor.tla/Layouts.tla) replayed with every operator, element type and value palette",
             "text": "bounded exhaustive model checking of the structure (which elements are combined, in which operand order, result shape, refusals) for every operand layout combination; each structure is executed on the real library for every operator x element type x palette and compared coordinate by coordinate with the term the specification assigns, evaluated with Go's operator",
             "note": "bounded (rank<=4, dims<=3); scalar semantics delegated to Go's operators as the property states"},
+    "C07": {"ref": "DESIGN.md 4 C07",
+            "technique": "TLC-enumerated option-mode structures (MC_elem, invariant OperandsIntact) replayed; every live tensor compared after the call",
+            "text": "bounded exhaustive model checking: the specification's Deliver action fixes, per mode, the returned tensor and the single tensor that changes; TLC checks on the model that every other tensor keeps its values; the replayer executes each structure (arithmetic, comparison, unary x safe/unsafe/reuse/incr/aliasing reuse x operand and destination layouts) and compares all live tensors, all caller backings and the identity of the returned tensor",
+            "note": "bounded (rank<=3, dims<=3); refusal accepted for aliasing reuse and for view / lazily transposed destinations"},
+    "C11": {"ref": "DESIGN.md 4 C11",
+            "technique": "TLC-enumerated comparison structures (MC_elem, Kinds={Cmp}) replayed with every comparison, element type and palette",
+            "text": "bounded exhaustive model checking of the structure; truth values from Go's comparison operators in operand order; result kinds bool / same-type / unsafe / reuse",
+            "note": "bounded (rank<=4, dims<=3)"},
+    "C12": {"ref": "DESIGN.md 4 C12",
+            "technique": "TLC-enumerated unary structures (MC_elem, Kinds={Unary}) replayed with every unary function, Clamp and Apply, every element type and palette",
+            "text": "bounded exhaustive model checking of the structure; values from Go's math/math32/cmplx routines within 8 ulp, exact for integer types and algebraic functions",
+            "note": "bounded (rank<=4, dims<=3); scalar function delegated to Go's maths routines as the property states"},
     "C01": {"ref": "DESIGN.md 4 C01",
             "technique": "TLC-enumerated behaviours of the TLA+ tensor machine (MC_addr) replayed on the real library",
             "text": "bounded exhaustive model checking: TLC enumerates every shape/constructor/layout in bounds and the complete coordinate->cell table of each; every table entry is executed (At and SetAt) on the real tensor for every element type, with a full snapshot of all storage around each write",
